@@ -335,7 +335,7 @@ def describe(case):
     if case.get('kind') == 'prog':
         return {'facts': {k: [terms.show_term(r[0]) for r in v] for k, v in case['facts'].items()}, 'program': case['source'],
                 'query': case['query'], 'repeat': case.get('repeat', 1)}
-    return [D.show_event(e) for e in case['events']]
+    return [D.show_event(e) for e in case['events']] + (['term objects: %r' % case['objects']] if case.get('objects') else [])
 
 def shrink(case):
     if case.get('kind') == 'dbprog':
